@@ -463,6 +463,22 @@ impl Signal {
 	}
 }
 
+impl Signal {
+	/// wait for a wake-up for at most `d`
+	fn wait_for(&self, d: Duration) -> bool {
+		let g = self.set.lock().unwrap();
+		if *g {
+			return true;
+		}
+		*self.cv.wait_timeout(g, d).unwrap().0
+	}
+}
+
+/// set in the one-CPU child: a stream that can never finish is recognised (pending, never woken,
+/// no live task in the runtime) and reported by the oracle instead of ending the process
+static ONE_CPU_CHILD: std::sync::atomic::AtomicBool = std::sync::atomic::AtomicBool::new(false);
+static NEVER_FINISHES: Mutex<Option<String>> = Mutex::new(None);
+
 impl Wake for Signal {
 	fn wake(self: Arc<Self>) {
 		self.wake_by_ref();
@@ -627,6 +643,18 @@ fn drive(sh: &Arc<Shared>, mut fut: Pin<Box<dyn Future<Output = ()>>>, batch: us
 			if !sig.is_set() {
 				break;
 			}
+		}
+		if !sh.plan.gated && ONE_CPU_CHILD.load(Ordering::Relaxed) {
+			let metrics = tokio::runtime::Handle::current().metrics();
+			let mut quiet = 0;
+			while !sig.wait_for(Duration::from_millis(100)) {
+				quiet = if metrics.num_alive_tasks() == 0 { quiet + 1 } else { 0 };
+				if quiet >= 30 {
+					*NEVER_FINISHES.lock().unwrap() = Some(format!("the consumer's future is pending, its waker was not invoked again and the runtime has no live task (observed 30 times over 3 s); {}", sh.summary()));
+					return;
+				}
+			}
+			continue;
 		}
 		if !sh.plan.gated {
 			if !sig.wait() {
@@ -815,6 +843,10 @@ fn oracle(case: &Case, obs: &mut Obs) -> Result<(), Fail> {
 	let r = run(case, plan);
 
 	// --- the property -------------------------------------------------------------------
+	if let Some(why) = NEVER_FINISHES.lock().unwrap().take() {
+		let got: usize = r.chunks.iter().map(|c| c.len()).sum();
+		fail!("stream-never-finishes", "{chain} n={n}, {} CPU(s) visible to the process: after {got} outputs {why}", num_cpus::get());
+	}
 	if let Some(a) = r.anomalies.first() {
 		fail!("callback-got-foreign-item", "{chain} n={n}: {a}");
 	}
@@ -1170,11 +1202,20 @@ fn delayed_strategy(n: impl Strategy<Value = u32>) -> impl Strategy<Value = Case
 	})
 }
 
+fn one_cpu_oracle(case: &Case, obs: &mut Obs) -> Result<(), Fail> {
+	vt::onecpu::run_in_child("C14_ONE_CPU_CHILD", &serde_json::to_vec(case).unwrap(), obs)
+}
+
 fn main() {
+	vt::onecpu::child_entry("C14_ONE_CPU_CHILD", |bytes, obs| {
+		ONE_CPU_CHILD.store(true, Ordering::Relaxed);
+		let case: Case = serde_json::from_slice(bytes).map_err(|e| Fail::new("harness:case", format!("{e}")))?;
+		oracle(&case, obs)
+	});
 	let mut check = Check::from_args(
 		"C14",
 		"exploration",
-		"streams of n tiles whose blobs carry their own index and coordinate, pushed through map_blob_parallel / filter_map_blob_parallel (generated keep masks) / from_coord_iter_parallel (generated Some/None masks), alone or as chains of two, and consumed by collect or for_each_buffered(0..n+2); the completion order of the per-tile tasks is dictated by the harness (callbacks wait at gates, one release per poll of the consumer; all n! orders for n <= 5 (quick) / 6 (thorough), generated priorities up to n = 10^4) or, for the large-stream phase, perturbed by generated sleeps; a case is non-trivial when n >= 2 and the recorded order in which the callbacks finished differs from the order in which the items were submitted to the operator; distinct = distinct serialised cases",
+		"streams of n tiles whose blobs carry their own index and coordinate, pushed through map_blob_parallel / filter_map_blob_parallel (generated keep masks) / from_coord_iter_parallel (generated Some/None masks), alone or as chains of two, and consumed by collect or for_each_buffered(0..n+2); the completion order of the per-tile tasks is dictated by the harness (callbacks wait at gates, one release per poll of the consumer; all n! orders for n <= 5 (quick) / 6 (thorough), generated priorities up to n = 10^4) or, for the large-stream phase, perturbed by generated sleeps; phase one-cpu: delay-schedule cases in a child process restricted to one CPU (num_cpus::get() = 1); a case is non-trivial when n >= 2 and the recorded order in which the callbacks finished differs from the order in which the items were submitted to the operator; distinct = distinct serialised cases",
 	);
 	let cpus = num_cpus::get();
 	check.assume("the callbacks are synchronous closures that block a runtime worker while they wait; each case runs on a multi-thread tokio runtime with 2*num_cpus+2 workers so that the in-flight windows of two chained operators can wait at the same time");
@@ -1211,6 +1252,12 @@ fn main() {
 	let cases = check.cases(24, 400);
 	let big = check.cases(2000, 10_000);
 	check.phase("delayed-large", cases, move || delayed_strategy(prop_oneof![1 => 200u32..big, 2 => Just(big)]), oracle);
+
+	// the operators size their windows with num_cpus::get(): the same oracle (delay schedules
+	// only) in a child process that sees one CPU; a stream that can never finish is recognised by
+	// quiescence (pending, never woken, no live task), not by a time limit
+	let cases = check.cases(120, 2500);
+	check.phase("one-cpu", cases, || delayed_strategy(prop_oneof![3 => 0u32..40, 2 => 40u32..400]), one_cpu_oracle);
 
 	check.finish();
 }
